@@ -28,7 +28,7 @@ H.append({"name":"H_frames","tiers":Q,"scale":"p4","bounds":"CompressWire / Deco
 H.append({"name":"H_gzip","tiers":Q,"max_steps":3000000000,"bounds":"the REAL gzip adapter packages and codecs interpreted (compress/gzip, savior gzipsource): concrete messages (3, 0, n and 0 payload bytes), quality a symbolic int32 (the solver decides every branch on it: accepted range, level tables); n in {0, 40, 140000 (incompressible: several deflate blocks)}; a save requested before message 0, 1 or 2 and every popped checkpoint resumed in a brand-new reader",
   "param_sets":[{"n":0},{"n":40},{"n":40,"save":0},{"n":140000,"save":1},{"n":140000,"save":2}]})
 H.append({"name":"H_frames","tiers":T,"scale":"p4","bounds":"buffer 4: up to 4 messages 0..9 bytes, every save subset, lag 0..4 reads (full reads); 1-byte and half-size reads throughout; every slicing of the first 4 reads of each reader for streams of 1-2 messages up to 4 bytes","max_seconds":1200,
-  "param_sets":sets([(0,),(1,),(4,),(9,),(0,0),(3,4),(9,1),(1,0,5),(4,4,4),(0,3,0,2),(5,1,9,0)],range(0,16),[0,4],[0])+sets([(0,),(1,),(4,),(9,),(0,0),(3,4),(1,0,5),(5,1,9,0)],range(0,16),[0,2],[2,3])+[dict(d,shortk=4) for d in sets([(0,),(4,),(0,0),(2,1)],range(0,4),[0,2],[1])]})
+  "param_sets":sets([(0,),(1,),(4,),(9,),(0,0),(3,4),(9,1),(1,0,5),(4,4,4),(0,3,0,2),(5,1,9,0)],range(0,16),[0,4],[0])+sets([(0,),(1,),(4,),(9,),(0,0),(3,4),(1,0,5),(5,1,9,0)],range(0,16),[0,2],[2,3])+[dict(d,shortk=4) for d in sets([(0,),(4,),(0,0),(2,1)],range(0,4),[0,2],[1]) if not (d['save']==3 and d['l1']>=0)]})
 H.append({"name":"H_frames","tiers":T,"bounds":"real 32 KiB buffer: payloads 32 KiB-1/32 KiB/32 KiB+1 bytes (message lengths straddling the reusable buffer and its first growth step), save before each",
   "max_seconds":1800,"max_steps":2000000000,"param_sets":sets([(32757,3),(32758,0),(32759,1),(32768,2),(65537,1)],[0,1,3],[0],[0])})
 json.dump({"property":"C13","package":"c13","scale":scale,"harnesses":H,
